@@ -568,6 +568,31 @@ impl Type {
 }
 
 impl Primitive {
+    /// The Rust type that stands for this primitive type
+    pub fn rust_type_id(&self) -> TypeId {
+        use IntKind::*;
+        use IntSize::*;
+        use Primitive::*;
+        match self {
+            Int(Unsigned, I8) => TypeId::of::<u8>(),
+            Int(Unsigned, I16) => TypeId::of::<u16>(),
+            Int(Unsigned, I32) => TypeId::of::<u32>(),
+            Int(Unsigned, I64) => TypeId::of::<u64>(),
+            Int(Signed, I8) => TypeId::of::<i8>(),
+            Int(Signed, I16) => TypeId::of::<i16>(),
+            Int(Signed, I32) => TypeId::of::<i32>(),
+            Int(Signed, I64) => TypeId::of::<i64>(),
+            Float(FloatSize::F32) => TypeId::of::<f32>(),
+            Float(FloatSize::F64) => TypeId::of::<f64>(),
+            String => TypeId::of::<crate::RotoString>(),
+            Char => TypeId::of::<char>(),
+            Bool => TypeId::of::<bool>(),
+            Asn => TypeId::of::<inetnum::asn::Asn>(),
+            IpAddr => TypeId::of::<std::net::IpAddr>(),
+            Prefix => TypeId::of::<inetnum::addr::Prefix>(),
+        }
+    }
+
     /// Layout of the primitive type
     ///
     /// This gives access to the size and alignment
